@@ -689,6 +689,16 @@ impl Scenario for C11 {
             if tainted.get() {
                 return Ok(());
             }
+            // the run's shape: the sequence of action kinds (with a size bucket for data actions)
+            st.shape_seq(match act {
+                Act::Update { vals, .. } => 10 + (usize::BITS - vals.len().leading_zeros()) as u64 / 3,
+                Act::Merge { vals, .. } => 20 + (usize::BITS - vals.len().leading_zeros()) as u64 / 3,
+                Act::Local { .. } => 30,
+                Act::Fill { .. } => 31,
+                Act::Checkpoint { sync } => 32 + *sync as u64,
+                Act::Crash { torn } => 34 + *torn as u64,
+                Act::Compare => 36,
+            });
             match act {
                 Act::Update { vals, w } => {
                     lib_call("update(primary)", || primary.update(vals, *w))?;
